@@ -64,7 +64,7 @@ pub fn gen_op(r: &mut Rng, st: &Store, pool: &Pool, cfg: &HistCfg) -> Op {
         0..=3 => NewEl(name),
         4..=7 => NewText(text(r)),
         8 => NewComment(text(r).replace('-', "_")),
-        9 => NewPi(*r.pick(&pool.pi_names), if r.chance(1, 2) { Some("d".into()) } else { None }),
+        9 => NewPi(*r.pick(&pool.pi_names), match r.below(5) { 0 | 1 => None, 2 => Some(String::new()), _ => Some("d".into()) }),
         10..=11 => NewAttr(aname, text(r)),
         12 => NewNs(pfx, uri),
         13 => NewDoc,
